@@ -56,7 +56,11 @@ def frames():
     # categorical dtypes with a declared order that is not the sorted one, and with a declared level that never occurs
     catdt["A"] = pd.Categorical(list(clean["A"]), categories=["z", "x", "w", "y"])
     catdt["B"] = pd.Categorical(list(clean["B"]), categories=["v", "u"], ordered=True)
-    return {"clean": clean, "nulls": nulls, "nulls-shuffled-index": shuffled, "categorical-dtype": catdt}
+    # nullable extension dtypes holding pandas.NA (integer and boolean kinds), next to an ordinary NaN
+    nullable = clean.copy()
+    nullable["n"] = pd.array([3, pd.NA, 4, 1, 5, 9], dtype="Int64")
+    nullable["b"] = pd.array([1.5, -2.5, 3.25, pd.NA, 4.75, 6.125], dtype="Float64")
+    return {"clean": clean, "nulls": nulls, "nulls-shuffled-index": shuffled, "categorical-dtype": catdt, "nullable-dtypes": nullable}
 
 
 def to_arrow(df):
@@ -132,6 +136,8 @@ def drv(c, ctx, col):
     entry = c.pick(ENTRIES)
     mat = c.pick(MATS)
     df = ctx["frame_objs"][fname]
+    if fname == "nullable-dtypes" and na_action == "ignore":
+        raise Skip()  # pandas.NA cells kept in the matrix: their representation per output type is not specified
     if fname.startswith("nulls") and na_action == "ignore" and any(t in formula for t in ("poly(", "bs(", "center(", "scale(")):
         raise Skip()  # stateful numeric transforms on data with unhandled nulls: behaviour not specified
     if entry == "registry picks the materializer" and mat == "narwhals/pandas":
@@ -253,6 +259,8 @@ def subchecks(tier, seed):
     fs = FORMULAS
     return [Sub("variants", drv, {"formulas": fs, "frames": ["clean", "nulls", "categorical-dtype"] if quick else ["clean", "nulls", "nulls-shuffled-index", "categorical-dtype"], "frame_objs": fr}, shard_depth=3,
                 bounds={"formulas": fs, "frames": ["clean (6 rows)", "nulls (3 null cells)"], "variants_per_pair": 144}),
+            Sub("variants-nullable-dtypes", drv, {"formulas": ["0 + n + a", "n + b", "0 + n:A + b", "a + A", "b:A"], "frames": ["nullable-dtypes"], "frame_objs": fr}, shard_depth=3,
+                bounds={"formulas": ["0 + n + a", "n + b", "0 + n:A + b", "a + A", "b:A"], "frame": "Int64 / Float64 columns holding pandas.NA", "variants_per_pair": "as in 'variants'"}),
             Sub("subset-spec-variants", drv_subset, {"frames": ["clean", "categorical-dtype"] if quick else ["clean", "nulls", "nulls-shuffled-index", "categorical-dtype"], "frame_objs": fr},
                 shard_depth=3, bounds={"parent_formulas": SUBSET_PARENTS, "kept_terms": "every non-empty proper subset of the parent's terms", "entries": SUBSET_ENTRIES,
                                        "outputs": "3 (parent) x 3 (requested)"})]
